@@ -41,6 +41,7 @@ def lib_loops(strb):
         (r"^(strlen|strcspn|strspn|strncmp|strcmp|strchr|strrchr|memcmp|memchr)(\$|$)", None, strb, False),
         (r"^vsnprintf$", None, max(strb, 24), False),
         (r"^vf_fmt_ulong$", None, 21, False),
+        (r"^strtoul$", None, strb, False),
         (r"^get_hashfn$", None, 18, False),
         (r"^arc4random_buf$", None, 258, False),
         (r"^check_badsalt_chars$", None, strb, False),
